@@ -263,7 +263,12 @@ def step (st : DState) (line : String) : DState × String :=
       -- must the gate reject? yes if the two types do not even describe the same bytes at `ver`
       match st.env.lookup writer, st.env.lookup reader, ver.toNat? with
       | some a, some b, some ver =>
-        (st, if wireEqv (saveWire a ver) (wireOf b ver) then "(ok free)" else "(ok must-reject)")
+        -- … or if the gate itself, on the schemas the two types have at `ver` (names of variants, discriminants),
+        -- reports a difference
+        let gateSame := match diff (schemaOf st.scfg a ver []) (schemaOf st.scfg b ver []) false with
+          | .same => true
+          | _ => false
+        (st, if wireEqv (saveWire a ver) (wireOf b ver) && gateSame then "(ok free)" else "(ok must-reject)")
       | _, _, _ => (st, "(bad-op xload)")
     | .list [.atom "schema", .atom name, .atom ver] =>
       match st.env.lookup name, ver.toNat? with
